@@ -38,12 +38,14 @@ def canon (r : Rule) : Cpt :=
 
 /-- **`normalCpt` is satisfiable for EVERY one of the 142 rules** (so `line_roundtrip_table` is not vacuous
     for any rule): the canonical component of each rule is in normal form. -/
-theorem nv_normalCpt_every_rule : G.rules.all (fun r => normalCpt G r (canon r)) = true := by decide +kernel
-
-/-- … and every such component is printable, with a normal option table -/
-theorem nv_canon_printable :
-    G.rules.all (fun r => (printCpt G (canon r)).isSome
+theorem nv_normalCpt_every_rule :
+    G.rules.all (fun r => normalCpt G r (canon r) && (printCpt G (canon r)).isSome
       && (match optsParse (canon r).opts with | .ok o => optsNormal o | .error _ => false)) = true := by decide +kernel
+
+/-- the complete line-level statement, as a predicate on (component, printed text) -/
+def RT (c : Cpt) (s : String) : Prop :=
+  ∃ c', (∀ used, parse G used [] s.toList = .ok (c', none)) ∧ sameCpt c c' = true
+    ∧ printCpt G c' = some s.toList ∧ c'.name = c.name
 
 /-! ### `V1 1 0 ac 5 0 3`  (rule `Vac`: keyword after two nodes, three optional arguments, all given) -/
 
@@ -62,16 +64,19 @@ theorem nv_line_roundtrip_Vac :
   obtain ⟨kp, os, h1, h2, _⟩ := line_roundtrip G nv_grammarWF (exRule "Vac") cVac_rule cVac cVac_normal _ cVac_print
   exact ⟨kp, os, h1, h2⟩
 
-theorem nv_line_roundtrip_table_Vac :=
-  line_roundtrip_table (exRule "Vac") cVac_rule cVac cVac_normal _ cVac_print
+theorem nv_line_roundtrip_table_Vac :
+    ∃ kp os, (∀ used, parse G used [] "V1 1 0 ac 5 0 3".toList
+        = .ok ({ cVac with args := normArgs cVac.args, kwpos := kp, opts := os, string := "V1 1 0 ac 5 0 3".toList }, none)) := by
+  obtain ⟨kp, os, h1, _⟩ := line_roundtrip_table (exRule "Vac") cVac_rule cVac cVac_normal _ cVac_print
+  exact ⟨kp, os, h1⟩
 
-theorem nv_line_roundtrip_full_Vac :=
-  line_roundtrip_full G nv_grammarWF (exRule "Vac") cVac_rule cVac cVac_normal [] (by decide) (by decide) _ cVac_print
+theorem nv_line_roundtrip_full_Vac : RT cVac "V1 1 0 ac 5 0 3" := by
+  obtain ⟨c', h1, h2, h3, h4, _⟩ :=
+    line_roundtrip_full G nv_grammarWF (exRule "Vac") cVac_rule cVac cVac_normal [] (by rfl) (by decide) _ cVac_print
+  exact ⟨c', h1, h2, h3, h4⟩
 
-theorem nv_line_roundtrip_full_table_Vac :
-    ∃ c', (∀ used, parse G used [] "V1 1 0 ac 5 0 3".toList = .ok (c', none)) ∧ sameCpt cVac c' = true
-      ∧ printCpt G c' = some "V1 1 0 ac 5 0 3".toList ∧ c'.name = cVac.name :=
-  line_roundtrip_full_table (exRule "Vac") cVac_rule cVac cVac_normal [] (by decide) (by decide) _ cVac_print
+theorem nv_line_roundtrip_full_table_Vac : RT cVac "V1 1 0 ac 5 0 3" :=
+  line_roundtrip_full_table (exRule "Vac") cVac_rule cVac cVac_normal [] (by rfl) (by decide) _ cVac_print
 
 /-! ### `V1 1 0 ac 5`  (optional arguments absent: printed as `V1 1 0 ac 5 0` -- the text CHANGES) -/
 
@@ -80,8 +85,8 @@ def cVac2 : Cpt :=
 theorem cVac2_parsed : parsed "V1 1 0 ac 5" = some cVac2 := by decide +kernel
 theorem cVac2_normal : normalCpt G (exRule "Vac") cVac2 = true := by decide +kernel
 theorem cVac2_print : printCpt G cVac2 = some "V1 1 0 ac 5 0".toList := by decide +kernel
-theorem nv_line_roundtrip_full_Vac2 :=
-  line_roundtrip_full_table (exRule "Vac") cVac_rule cVac2 cVac2_normal [] (by decide) (by decide) _ cVac2_print
+theorem nv_line_roundtrip_full_Vac2 : RT cVac2 "V1 1 0 ac 5 0" :=
+  line_roundtrip_full_table (exRule "Vac") cVac_rule cVac2 cVac2_normal [] (by rfl) (by decide) _ cVac2_print
 
 /-! ### `C1 1 2 4 2`  (rule `C`: no keyword, value and initial condition) and `C1 1 2` (elided default) -/
 
@@ -90,15 +95,15 @@ theorem cC_parsed : parsed "C1 1 2 4 2" = some cC := by decide +kernel
 theorem cC_rule : exRule "C" ∈ G.rules := by decide +kernel
 theorem cC_normal : normalCpt G (exRule "C") cC = true := by decide +kernel
 theorem cC_print : printCpt G cC = some "C1 1 2 4 2".toList := by decide +kernel
-theorem nv_line_roundtrip_full_C :=
-  line_roundtrip_full_table (exRule "C") cC_rule cC cC_normal [] (by decide) (by decide) _ cC_print
+theorem nv_line_roundtrip_full_C : RT cC "C1 1 2 4 2" :=
+  line_roundtrip_full_table (exRule "C") cC_rule cC cC_normal [] (by rfl) (by decide) _ cC_print
 
 def cC0 : Cpt := { exCpt "C" "C1" "C" "1" ["1", "2"] [some "C1", none] none "" "" with string := "C1 1 2".toList }
 theorem cC0_parsed : parsed "C1 1 2" = some cC0 := by decide +kernel
 theorem cC0_normal : normalCpt G (exRule "C") cC0 = true := by decide +kernel
 theorem cC0_print : printCpt G cC0 = some "C1 1 2".toList := by decide +kernel
-theorem nv_line_roundtrip_full_C0 :=
-  line_roundtrip_full_table (exRule "C") cC_rule cC0 cC0_normal [] (by decide) (by decide) _ cC0_print
+theorem nv_line_roundtrip_full_C0 : RT cC0 "C1 1 2" :=
+  line_roundtrip_full_table (exRule "C") cC_rule cC0 cC0_normal [] (by rfl) (by decide) _ cC0_print
 
 /-! ### `E1 1 2 opamp 3 4 1e6`  (rule `Eopamp`: nodes, keyword, nodes, three optional arguments with defaults) -/
 
@@ -109,8 +114,8 @@ theorem cE_parsed : parsed "E1 1 2 opamp 3 4 1e6" = some cE := by decide +kernel
 theorem cE_rule : exRule "Eopamp" ∈ G.rules := by decide +kernel
 theorem cE_normal : normalCpt G (exRule "Eopamp") cE = true := by decide +kernel
 theorem cE_print : printCpt G cE = some "E1 1 2 opamp 3 4 1e6 0 0".toList := by decide +kernel
-theorem nv_line_roundtrip_full_E :=
-  line_roundtrip_full_table (exRule "Eopamp") cE_rule cE cE_normal [] (by decide) (by decide) _ cE_print
+theorem nv_line_roundtrip_full_E : RT cE "E1 1 2 opamp 3 4 1e6 0 0" :=
+  line_roundtrip_full_table (exRule "Eopamp") cE_rule cE cE_normal [] (by rfl) (by decide) _ cE_print
 
 /-! ### a line with a braced value and drawing attributes: `R1 1 2 {a + b}; right=2, l=R_1` -/
 
@@ -122,8 +127,397 @@ theorem cR_rule : exRule "R" ∈ G.rules := by decide +kernel
 theorem cR_normal : normalCpt G (exRule "R") cR = true := by decide +kernel
 theorem cR_print : printCpt G cR = some "R1 1 2 {a + b}; right=2, l=R_1".toList := by decide +kernel
 def oR : Opts := [("right".toList, .s "2".toList), ("l".toList, .s "R_1".toList)]
-theorem nv_line_roundtrip_full_R :=
-  line_roundtrip_full_table (exRule "R") cR_rule cR cR_normal oR (by decide +kernel) (by decide) _ cR_print
+theorem nv_line_roundtrip_full_R : RT cR "R1 1 2 {a + b}; right=2, l=R_1" :=
+  line_roundtrip_full_table (exRule "R") cR_rule cR cR_normal oR (by rfl) (by decide) _ cR_print
+
+/-! ## 1. Props/C06.lean -/
+
+/-- the error the model's parser returns for a line -/
+def parseErr (s : String) : Option Err :=
+  match parse G [] [] s.toList with
+  | .error e => some e
+  | .ok _ => none
+
+def toks (l : List String) : List Str := l.map (·.toList)
+
+theorem nv_split_join :
+    split ds (joinWith [' '] (toks ["V1", "1", "n_2", "ac", "{a + (b, c)}", "\"x y\"", "4.7k"]))
+      = some (toks ["V1", "1", "n_2", "ac", "{a + (b, c)}", "\"x y\"", "4.7k"]) :=
+  split_join ds ' ' (by decide) (by decide) _ (by decide)
+
+theorem nv_plain_atomic : atomic ds "n_2".toList = true :=
+  plain_atomic ds "n_2".toList (by decide) (by decide)
+
+theorem nv_scan_braceBal : scan ds "f(x, {y}) + 1".toList (inBrace 0) = some (inBrace 0) :=
+  scan_braceBal ds "f(x, {y}) + 1".toList (by decide) 0 0 (by decide)
+
+theorem nv_braced_atomic : atomic ds ('{' :: ("f(x, {y}) + 1".toList ++ ['}'])) = true :=
+  braced_atomic ds (by decide) "f(x, {y}) + 1".toList (by decide) (by decide)
+
+theorem nv_arg_format_roundtrip :
+    unquote (argFormat ds "f(x, y) + {a b}".toList) = "f(x, y) + {a b}".toList
+      ∧ atomic ds (argFormat ds "f(x, y) + {a b}".toList) = true :=
+  arg_format_roundtrip ds (by decide) _ (by decide)
+
+/-- `select_spec` on the real rule list of type `V` and the fields of `V1 1 0 ac 5` -/
+theorem nv_select_spec :
+    selectLoop (toks ["1", "0", "ac", "5"]) ((rulesOf G ['V']).take 4 ++ exRule "Vac" :: (rulesOf G ['V']).drop 5) none
+      = (some (exRule "Vac", "ac".toList), some 2) :=
+  select_spec (toks ["1", "0", "ac", "5"]) ((rulesOf G ['V']).take 4) ((rulesOf G ['V']).drop 5) (exRule "Vac") 2
+    ⟨"ac".toList, .keyword, false, none⟩ "ac".toList (by decide +kernel) (by decide +kernel) (by decide) (by decide)
+    (by decide +kernel) none
+theorem nv_select_spec_list : (rulesOf G ['V']).take 4 ++ exRule "Vac" :: (rulesOf G ['V']).drop 5 = rulesOf G ['V'] := by
+  decide +kernel
+
+theorem nv_select_none : (selectLoop (toks ["1", "0", "5"]) (rulesOf G ['V']) none).1 = none :=
+  select_none _ _ (by decide +kernel) none
+
+theorem nv_rejects_too_many :
+    process (exRule "R") (toks ["1", "2", "3", "4"]) "R1".toList [] "R1".toList = .error .tooMany :=
+  rejects_too_many _ _ _ _ _ (by decide +kernel)
+
+theorem nv_extractNodes_missing :
+    extractNodes "R1".toList [] (exRule "R").params (toks ["1"]) = .error .missingNode :=
+  extractNodes_missing _ _ _ (toks ["1"]) 1 ⟨"Nm".toList, .node, false, none⟩ (by decide) (by decide +kernel) (by decide)
+
+theorem nv_rejects_too_few_nodes :
+    process (exRule "R") (toks ["1"]) "R1".toList [] "R1".toList = .error .missingNode :=
+  rejects_too_few_nodes _ _ _ _ _ 1 ⟨"Nm".toList, .node, false, none⟩ (by decide) (by decide +kernel) (by decide)
+
+theorem nv_matchType_none : matchType G "N1".toList = none :=
+  matchType_none G _ (by decide +kernel)
+
+theorem nv_rejects_unknown_type : parse G [] [] "N1 1 2 3".toList = .error .unknownCpt :=
+  rejects_unknown_type G [] [] "N1 1 2 3".toList "N1".toList (toks ["1", "2", "3"]) (by decide +kernel) (by decide +kernel)
+    (by decide +kernel) (by decide +kernel)
+
+def argsC : List Arg := ((exRule "C").params.filter (·.kind.isArg)).map (Arg.init · "C1".toList)
+
+theorem nv_argIndex_none : argIndex argsC "foo".toList = none :=
+  argIndex_none _ _ (by decide +kernel)
+
+theorem nv_rejects_unknown_named : assignNamed argsC (toks ["foo=3"]) = .error .unknownParam :=
+  rejects_unknown_named argsC "foo=3".toList "foo".toList "3".toList [] [] (by decide) (by decide +kernel)
+
+theorem nv_rejects_value_after_named : assignNamed argsC (toks ["5"]) = .error .valueAfterNamed :=
+  rejects_value_after_named argsC "5".toList [] (by decide)
+
+/-- the five kinds of malformed line of the property text, at the level of `parse` (the theorems above stop at
+    `process` / `assignNamed` / `split`): evaluated on the model -/
+theorem nv_rejects_parse_level :
+    parseErr "R1 1" = some .missingNode ∧ parseErr "R1 1 2 3 4" = some .tooMany
+    ∧ parseErr "N1 1 2 3" = some .unknownCpt ∧ parseErr "C1 1 2 foo=3" = some .unknownParam
+    ∧ parseErr "C1 1 2 IC=3 5" = some .valueAfterNamed
+    ∧ parseErr "R1 1 2 {a + b" = some .unbalanced ∧ parseErr "R1 1 2 a}" = some .unbalanced := by decide +kernel
+
+theorem nv_closeOK_step : closeOK (step ds ⟨[], [], none, [], false⟩ '{') :=
+  closeOK_step ds _ '{' ⟨by simp, by simp⟩
+theorem nv_closeOK_fold : closeOK ("R1 {a".toList.foldl (step ds) ⟨[], [], none, [], false⟩) :=
+  closeOK_fold ds _ _ ⟨by simp, by simp⟩
+theorem nv_open_brace_stays :
+    ("a + b".toList.foldl (step ds) ⟨[], ['{'], some '}', [none], false⟩).close = some '}' :=
+  (open_brace_stays ds "a + b".toList (by decide) ⟨[], ['{'], some '}', [none], false⟩ rfl (by simp)).1
+
+theorem nv_rejects_unclosed_brace : split ds ("R1 1 2 ".toList ++ '{' :: "a + b".toList) = none :=
+  rejects_unclosed_brace ds _ _ (by decide) (by decide) (by decide) (by decide)
+
+theorem nv_stray_close_not_atomic : atomic ds ("a".toList ++ '}' :: "b".toList) = false :=
+  stray_close_not_atomic ds _ _ (by decide)
+
+theorem nv_suffix_value :
+    valueParser Gen.Grammar.suffixSrc ("4.7".toList ++ ['k']) = .num ((47 / 10 : Rat) * pow10 3) :=
+  suffix_value _ "4.7".toList 'k' 3 (47 / 10) (by decide +kernel) (by decide) (by decide) (by decide) (by decide)
+theorem nv_suffix_value_K :
+    valueParser Gen.Grammar.suffixSrc ("10".toList ++ ['K']) = .num ((10 : Rat) * pow10 3) :=
+  suffix_value_K _ "10".toList 3 10 (by decide +kernel) (by decide) (by decide)
+theorem nv_suffix_value_Meg :
+    valueParser Gen.Grammar.suffixSrc ("2.2".toList ++ ['M', 'e', 'g']) = .num ((22 / 10 : Rat) * pow10 6) :=
+  suffix_value_Meg _ "2.2".toList 6 (22 / 10) (by decide +kernel) (by decide)
+
+/-- `print_idempotent`: hypotheses satisfiable by a hand-made `c'` … -/
+theorem nv_print_idempotent : printCpt G { cVac2 with args := normArgs cVac2.args } = printCpt G cVac2 :=
+  print_idempotent G cVac2 { cVac2 with args := normArgs cVac2.args } rfl rfl rfl rfl rfl rfl rfl rfl
+
+/-- … but NOT by the component that re-parsing the printed text actually returns: for `V1 1 0 ac 5` (printed
+    `V1 1 0 ac 5 0`) the re-parsed component has another `string` (hypothesis `hstr` fails), and for an
+    option string that `format` re-spaces, another `opts` (hypothesis `hopts` fails).  The statement that covers
+    the real re-parse is `line_roundtrip_full` (conclusion `printCpt g c' = some s`). -/
+theorem print_idempotent_hyps_fail_on_real_reparse :
+    (match parsed "V1 1 0 ac 5 0" with | some c' => c'.string != cVac2.string | none => false) = true
+    ∧ (match parsed "R1 1 2; right=2,l=R_1", parsed "R1 1 2; right=2, l=R_1" with
+        | some c, some c' => printCpt G c == some "R1 1 2; right=2, l=R_1".toList && c'.opts != c.opts
+        | _, _ => false) = true := by decide +kernel
+
+def apsVac : List Param := (shapeOf (exRule "Vac").params).C
+
+/-- `print_parse_args` on the argument parameters `[Value=name] [Phase] [Omega]` of the real rule `Vac`, values of
+    `V1 1 0 ac 5 0 3` with the phase left out -/
+theorem nv_print_parse_args :
+    ∃ args, assignPos (apsVac.map (Arg.init · "V1".toList)) (fmtArgs ds [some ['5'], none, some ['3']]) = .ok (args, [])
+      ∧ args.map (·.value) = normArgs [some ['5'], none, some ['3']] :=
+  print_parse_args ds (by decide) (by decide) "V1".toList apsVac [some ['5'], none, some ['3']] (by decide +kernel)
+    (by intro v hv; simp at hv; rcases hv with rfl | rfl <;> decide) (by decide +kernel)
+
+theorem nv_okValue_zero : okValue ds ['0'] = true := okValue_zero ds (by decide)
+theorem nv_assign_fresh :
+    (Arg.init ⟨"Value".toList, .value, true, some "name".toList⟩ "R1".toList).assign (argFormat ds "a + b".toList)
+      = .ok { name := "Value".toList, value := some "a + b".toList, assigned := true } :=
+  assign_fresh ds (by decide) ⟨"Value".toList, .value, true, some "name".toList⟩ "R1".toList "a + b".toList (by decide)
+theorem nv_not_named : ¬ (splitEq (argFormat ds "a + b".toList)).length > 1 := not_named ds _ (by decide)
+
+theorem nv_elided_default_restored :
+    ⟨"Value".toList, .value, true, some "name".toList⟩ ∈ (exRule "R").params
+    ∧ (Arg.init ⟨"Value".toList, .value, true, some "name".toList⟩ "R1".toList).value = some "R1".toList :=
+  ⟨by decide +kernel, elided_default_restored _ _ rfl⟩
+
+/-- the parameter of `elided_default_partial_counterexample` is the real `[Time=0]` of rule `SW` -/
+theorem nv_elided_counterexample_is_real :
+    (⟨['T','i','m','e'], .value, true, some ['0']⟩ : Param) ∈ (exRule "SW").params := by decide +kernel
+
+/-! ## 2. Props/C06Line.lean -/
+
+deriving instance DecidableEq for Except
+
+theorem nv_argFormat_eq_plain : "R1".toList = "R1".toList := argFormat_eq_plain ds _ _ (by decide) (by decide)
+
+def apsC : List Param := (shapeOf (exRule "C").params).C
+
+/-- `args_roundtrip`, elided case: `C1 1 2` (the sole printed argument `C1` is dropped and restored by the default) -/
+theorem nv_args_roundtrip_elided :
+    ∃ args, assignPos (apsC.map (Arg.init · "C1".toList)) (printedArgs ds "C1".toList [some "C1".toList, none]) = .ok (args, [])
+      ∧ args.map (·.value) = normArgs [some "C1".toList, none] :=
+  args_roundtrip ds (by decide) (by decide) "C1".toList (by decide) (by decide) apsC [some "C1".toList, none]
+    (by decide +kernel) (by intro v hv; simp at hv; subst hv; decide) (by decide +kernel) (by intro _; decide +kernel)
+theorem nv_args_roundtrip_elided_is_elided : printedArgs ds "C1".toList [some "C1".toList, none] = [] := by decide
+
+/-- `args_roundtrip`, ordinary case: `C1 1 2 4 2` -/
+theorem nv_args_roundtrip :
+    ∃ args, assignPos (apsC.map (Arg.init · "C1".toList)) (printedArgs ds "C1".toList [some ['4'], some ['2']]) = .ok (args, [])
+      ∧ args.map (·.value) = normArgs [some ['4'], some ['2']] :=
+  args_roundtrip ds (by decide) (by decide) "C1".toList (by decide) (by decide) apsC [some ['4'], some ['2']]
+    (by decide +kernel) (by intro v hv; simp at hv; rcases hv with rfl | rfl <;> decide) (by decide +kernel)
+    (by intro h; exact absurd h (by decide))
+
+/-- `process_roundtrip` on the real rule `Eopamp` (nodes, keyword, nodes, three optional arguments) and the
+    fields of `E1 1 2 opamp 3 4 1e6` -/
+theorem nv_process_roundtrip :
+    process (exRule "Eopamp") (toks ["1", "2"] ++ toks ["opamp"] ++ toks ["3", "4"] ++ toks ["1e6"]) "E1".toList [] "E1".toList
+      = .ok (toks ["1", "2"] ++ toks ["3", "4"], [some "1e6".toList, some ['0'], some ['0']]) :=
+  process_roundtrip (exRule "Eopamp") ((exRule "Eopamp").params.take 2) (((exRule "Eopamp").params.drop 2).take 1)
+    (((exRule "Eopamp").params.drop 3).take 2) ((exRule "Eopamp").params.drop 5) (by decide +kernel)
+    (by decide +kernel) (by decide +kernel) (by decide +kernel) (by decide +kernel)
+    (toks ["1", "2"]) (toks ["3", "4"]) (toks ["opamp"]) (by decide +kernel) (by decide +kernel) (by decide +kernel) (by decide)
+    "E1".toList "E1".toList (toks ["1e6"]) (by decide +kernel) (by decide +kernel)
+    [some "1e6".toList, some ['0'], some ['0']]
+    [⟨"Ad".toList, some "1e6".toList, true⟩, ⟨"Ac".toList, some ['0'], false⟩, ⟨"Ro".toList, some ['0'], false⟩]
+    (by decide +kernel) (by decide)
+
+theorem nv_plainTok_spec : "n_2".toList ≠ [] := (plainTok_spec ds "n_2".toList (by decide)).1
+theorem nv_plainTok_lineTok : lineTok ds "n_2".toList := plainTok_lineTok ds _ (by decide)
+theorem nv_argFormat_lineTok : lineTok ds (argFormat ds "a + (b, c)".toList) :=
+  argFormat_lineTok ds (by decide) _ (by decide) (by decide)
+theorem nv_fmtArgs_mem : ∃ v, (some v ∈ [some ['5'], none, some ['3']] ∨ v = ['0']) ∧ ['0'] = argFormat ds v :=
+  fmtArgs_mem ds [some ['5'], none, some ['3']] ['0'] (by decide)
+theorem nv_printedArgs_lineTok : ∀ t ∈ printedArgs ds "V1".toList [some "a + b".toList, none, some ['3']], lineTok ds t :=
+  printedArgs_lineTok ds (by decide) (by decide) _ _
+    (by intro v hv; simp at hv; rcases hv with rfl | rfl <;> exact ⟨by decide, by decide⟩)
+theorem nv_line_of_tokens :
+    split ds (joinWith [' '] (toks ["V1", "1", "0", "ac", "{a + b}", "0", "3"])) = some (toks ["V1", "1", "0", "ac", "{a + b}", "0", "3"]) :=
+  (line_of_tokens ds (by decide) (by decide) "V1".toList (toks ["1", "0", "ac", "{a + b}", "0", "3"]) (by
+    intro t ht
+    have : plainTok ds t = true ∨ t = "{a + b}".toList := by
+      simp [toks] at ht
+      rcases ht with rfl | rfl | rfl | rfl | rfl | rfl | rfl <;> first | (left; decide) | (right; rfl)
+    rcases this with h | rfl
+    · exact plainTok_lineTok ds t h
+    · exact argFormat_lineTok ds (by decide) "a + b".toList (by decide) (by decide))).1
+
+theorem nv_mem_split_takeWhile :
+    ∃ post, rulesOf G ['V'] = (rulesOf G ['V']).takeWhile (fun r' => r' != exRule "Vac") ++ exRule "Vac" :: post :=
+  mem_split_takeWhile _ _ (by decide +kernel)
+theorem nv_takeWhile_all : "n_2".toList.takeWhile isIdChar = "n_2".toList := takeWhile_all _ _ (by decide)
+theorem nv_mem_rulesOf : exRule "Vac" ∈ rulesOf G (exRule "Vac").type := mem_rulesOf G _ cVac_rule
+
+theorem nv_select_keyword :
+    selectLoop (toks ["1", "0", "ac", "5"]) (rulesOf G (exRule "Vac").type) none = (some (exRule "Vac", "ac".toList), some 2) :=
+  select_keyword G (exRule "Vac") cVac_rule (toks ["1", "0", "ac", "5"]) 2 ⟨"ac".toList, .keyword, false, none⟩
+    (by decide +kernel) (by decide +kernel) (by decide) (by decide +kernel)
+
+theorem nv_select_default : (selectLoop (toks ["1", "0", "5"]) (rulesOf G (exRule "V").type) none).1 = none :=
+  select_default G (exRule "V") _ (by decide +kernel) (by decide +kernel)
+
+theorem nv_netTokens_plain :
+    netTokens G cVac = cVac.name :: ((if cVac.kwpos == some 0 && !cVac.kw.isEmpty then [cVac.kw] else [])
+      ++ nodesWithKw cVac.kwpos cVac.kw cVac.nodes 0 ++ printedArgs G.delimiters cVac.name cVac.args) :=
+  netTokens_plain G cVac (by decide) (by decide)
+
+/-- `parse_of_tokens` (unfolding lemma) on `R1 1 2 5` -/
+theorem nv_parse_of_tokens :
+    parse G [] [] "R1 1 2 5".toList
+      = .ok ((⟨"R".toList, "R1".toList, ['R'], ['1'], toks ["1", "2"], [some ['5']], none, [], [], "R1 1 2 5".toList⟩ : Cpt), none) :=
+  parse_of_tokens G (by decide +kernel) [] "R1 1 2 5".toList "R1 1 2 5".toList none none "R1".toList (toks ["1", "2", "5"]) ['R'] ['1']
+    (exRule "R") [] (by decide) (by decide) (by decide) (by decide) (by decide) (by decide +kernel) (by decide) (by decide)
+    (by decide +kernel) (exRule "R") [] none (by decide +kernel) (by decide) (by decide) (toks ["1", "2"]) [some ['5']]
+    (by decide +kernel) [] (by decide)
+
+theorem nv_opts_format_parse :
+    ∃ s, optsFormat [("right".toList, .s []), ("l".toList, .s "R_1=3 ohm".toList), ("mirror".toList, .b false), ("scale".toList, .s "0.5".toList)] = some s
+      ∧ optsParse s = .ok [("right".toList, .s []), ("l".toList, .s "R_1=3 ohm".toList), ("mirror".toList, .b false), ("scale".toList, .s "0.5".toList)]
+      ∧ strip s = s :=
+  opts_format_parse _ (by decide)
+
+theorem nv_opts_format_idempotent : ∃ o', optsParse "right=2, l=R_1".toList = .ok o' ∧ optsFormat o' = some "right=2, l=R_1".toList :=
+  opts_format_idempotent oR (by decide) _ (by decide)
+
+theorem nv_optsEq_refl : optsEq oR oR = true := optsEq_refl oR (by decide)
+
+theorem nv_netTokens_reparsed :
+    netTokens G { cVac2 with args := normArgs cVac2.args, kwpos := some 2, opts := [], string := "V1 1 0 ac 5 0".toList } = netTokens G cVac2 :=
+  netTokens_reparsed G cVac2 (some 2) [] _ (fun _ => rfl)
+
+/-- `kwDistinct_pair` on the real rule list of type `V`: `Vdc` (earlier) and `Vac` share position 2, their keywords differ -/
+theorem nv_kwDistinct_pair :
+    ((exRule "Vac").params[2]?.map (fun q => lower q.name)) ≠ ((exRule "Vdc").params[2]?.map (fun q => lower q.name)) :=
+  kwDistinct_pair ((rulesOf G ['V']).take 4) (exRule "Vac") ((rulesOf G ['V']).drop 5) (by decide +kernel)
+    (exRule "Vdc") (by decide +kernel) 2 (by decide +kernel) (by decide +kernel)
+
+/-- `selOK_of_fields` on the real rule `Vac` and the fields of `V1 1 0 ac 5` -/
+theorem nv_selOK_of_fields : selOK G (exRule "Vac") (toks ["1", "0", "ac", "5"]) = true :=
+  selOK_of_fields G table_wf2 (exRule "Vac") cVac_rule (toks ["1", "0", "ac", "5"])
+    (by
+      intro p hp
+      have : (exRule "Vac").pos = some 2 := by decide +kernel
+      rw [this] at hp; cases hp
+      exact ⟨⟨"ac".toList, .keyword, false, none⟩, by decide +kernel, by decide⟩)
+    (by
+      have hpos : (exRule "Vac").pos = some 2 := by decide +kernel
+      have hk : ∀ f ∈ toks ["1", "0", "5"], (typeKeywords G (exRule "Vac").type).contains (lower f) = false := by decide +kernel
+      intro i f hf hne
+      match i, hf with
+      | 0, hf => simp [toks] at hf; subst hf; exact hk _ (by decide)
+      | 1, hf => simp [toks] at hf; subst hf; exact hk _ (by decide)
+      | 2, _ => exact absurd hpos hne
+      | 3, hf => simp [toks] at hf; subst hf; exact hk _ (by decide)
+      | (n + 4), hf => simp [toks] at hf)
+
+/-! ## 3. Props/C06Netlist.lean -/
+
+theorem nv_splitOn_joinWith_lines :
+    splitOn '\n' (joinWith ['\n'] (toks ["V1 1 0 ac 5 0 3", "R1 1 2 {a + b}; right=2, l=R_1", "C1 2 0 4 2"]))
+      = toks ["V1 1 0 ac 5 0 3", "R1 1 2 {a + b}; right=2, l=R_1", "C1 2 0 4 2"] :=
+  splitOn_joinWith_lines _ (by decide) (by decide)
+
+theorem nv_eltsSet_fresh : eltsSet [cVac, cR] cC = [cVac, cR] ++ [cC] := eltsSet_fresh _ _ (by decide)
+theorem nv_preLine_id : preLine "R1 1 2".toList = "R1 1 2".toList := preLine_id _ (by decide)
+
+/-- the netlist  `V1 1 0 ac 5 0 3` / `R1 1 2 {a + b}; right=2, l=R_1` / `C1 1 2 4 2` -/
+def net3 : List Cpt := [cVac, cR, cC]
+def txt3 : Str := "V1 1 0 ac 5 0 3\nR1 1 2 {a + b}; right=2, l=R_1\nC1 1 2 4 2".toList
+
+theorem net3_normal : ∀ c ∈ net3, ∃ r ∈ G.rules, normalCpt G r c = true ∧ ∃ o, optsParse c.opts = .ok o ∧ optsNormal o = true := by
+  intro c hc
+  simp only [net3, List.mem_cons, List.not_mem_nil, or_false] at hc
+  rcases hc with rfl | rfl | rfl
+  · exact ⟨_, cVac_rule, cVac_normal, [], by rfl, by decide⟩
+  · exact ⟨_, cR_rule, cR_normal, oR, by rfl, by decide⟩
+  · exact ⟨_, cC_rule, cC_normal, [], by rfl, by decide⟩
+
+theorem net3_nonl : ∀ c ∈ net3, ∀ l, printCpt G c = some l → ∀ ch ∈ l, ch ≠ '\n' := by
+  intro c hc l hl
+  simp only [net3, List.mem_cons, List.not_mem_nil, or_false] at hc
+  rcases hc with rfl | rfl | rfl
+  · rw [cVac_print] at hl; cases hl; decide
+  · rw [cR_print] at hl; cases hl; decide
+  · rw [cC_print] at hl; cases hl; decide
+
+theorem net3_lines : net3.mapM (printCpt G) = some (toks ["V1 1 0 ac 5 0 3", "R1 1 2 {a + b}; right=2, l=R_1", "C1 1 2 4 2"]) := by
+  simp [net3, List.mapM_cons, cVac_print, cR_print, cC_print, toks]
+
+theorem nv_lines_exist :
+    ∃ lcs : List (Str × Cpt), lcs.map (·.1) = toks ["V1 1 0 ac 5 0 3", "R1 1 2 {a + b}; right=2, l=R_1", "C1 1 2 4 2"]
+      ∧ (∀ p ∈ lcs, LineOK G p.1 p.2) ∧ lcs.map (·.2.name) = net3.map (·.name) ∧ sameNetlist net3 (lcs.map (·.2)) = true := by
+  obtain ⟨lcs, h1, _, h3, h4, h5⟩ := lines_exist G nv_grammarWF net3 net3_normal net3_nonl _ net3_lines
+  exact ⟨lcs, h1, fun p hp => (h3 p hp).1, h4, h5⟩
+
+/-- `addLines_lines` with the `LineOK` facts that the line-level theorem provides for the three lines -/
+theorem nv_addLines_lines :
+    ∃ cs', addLines G NState.empty (toks ["V1 1 0 ac 5 0 3", "R1 1 2 {a + b}; right=2, l=R_1", "C1 1 2 4 2"]) = .ok ⟨cs', []⟩
+      ∧ sameNetlist net3 cs' = true := by
+  obtain ⟨lcs, h1, h3, h4, h5⟩ := nv_lines_exist
+  have := addLines_lines G lcs h3 (by rw [h4]; decide) NState.empty (by simp [NState.empty])
+  rw [h1] at this
+  exact ⟨_, by simpa [NState.empty] using this, h5⟩
+
+theorem nv_netlist_roundtrip :
+    ∃ cs', parseNetlist G txt3 = .ok ⟨cs', []⟩ ∧ sameNetlist net3 cs' = true ∧ printNetlist G ⟨cs', []⟩ = some txt3 :=
+  netlist_roundtrip G nv_grammarWF net3 (by decide) net3_normal (by decide) net3_nonl txt3 (by decide +kernel)
+
+theorem nv_netlist_roundtrip_table :
+    ∃ cs', parseNetlist G txt3 = .ok ⟨cs', []⟩ ∧ sameNetlist net3 cs' = true ∧ printNetlist G ⟨cs', []⟩ = some txt3 :=
+  netlist_roundtrip_table net3 (by decide) net3_normal (by decide) net3_nonl txt3 (by decide +kernel)
+
+/-! ## 4. Props/C06Nested.lean -/
+
+/-- `a{b, {c}} "p q"` is balanced (the value of the file's own example) -/
+theorem balEx : Bal '}' "a{b, {c}} \"p q\"".toList :=
+  Bal.plain _ 'a' _ (by decide) (by decide) (by decide)
+    (Bal.brace _ "b, {c}".toList " \"p q\"".toList
+      (Bal.plain _ 'b' _ (by decide) (by decide) (by decide) (Bal.plain _ ',' _ (by decide) (by decide) (by decide)
+        (Bal.plain _ ' ' _ (by decide) (by decide) (by decide) (Bal.brace _ ['c'] []
+          (Bal.plain _ 'c' _ (by decide) (by decide) (by decide) (Bal.nil _)) (Bal.nil _)))))
+      (Bal.plain _ ' ' _ (by decide) (by decide) (by decide) (Bal.quote "p q".toList []
+        (Bal.plain _ 'p' _ (by decide) (by decide) (by decide) (Bal.plain _ ' ' _ (by decide) (by decide) (by decide)
+          (Bal.plain _ 'q' _ (by decide) (by decide) (by decide) (Bal.nil _)))) (Bal.nil _))))
+
+/-- the printed token `{a{b, {c}} "p q"}` is a `Tok` -/
+theorem tokEx : Tok ds ('{' :: ("a{b, {c}} \"p q\"".toList ++ '}' :: [])) := Tok.brace _ [] balEx Tok.nil
+
+theorem nv_scan_bal : scan ds "a{b, {c}} \"p q\"".toList (some '}', [none]) = some (some '}', [none]) :=
+  scan_bal ds balEx (Or.inl rfl) none []
+theorem nv_scan_tok : scan ds ('{' :: ("a{b, {c}} \"p q\"".toList ++ '}' :: [])) (none, []) = some (none, []) :=
+  scan_tok ds (by decide) (by decide) tokEx
+theorem nv_nested_atomic : atomic ds ('{' :: ("a{b, {c}} \"p q\"".toList ++ '}' :: [])) = true :=
+  nested_atomic ds (by decide) (by decide) _ (by simp) tokEx
+theorem nv_split_join_nested :
+    split ds (joinWith [' '] ["R1".toList, ['1'], ['2'], '{' :: ("a{b, {c}} \"p q\"".toList ++ '}' :: [])])
+      = some ["R1".toList, ['1'], ['2'], '{' :: ("a{b, {c}} \"p q\"".toList ++ '}' :: [])] :=
+  split_join_nested ds (by decide) (by decide) (by decide) _ (by
+    intro t ht
+    simp only [List.mem_cons, List.not_mem_nil, or_false] at ht
+    rcases ht with rfl | rfl | rfl | rfl
+    · exact ⟨by decide, Tok.plain 'R' _ (by decide) (by decide) (by decide) (by decide)
+        (Tok.plain '1' _ (by decide) (by decide) (by decide) (by decide) Tok.nil)⟩
+    · exact ⟨by decide, Tok.plain '1' _ (by decide) (by decide) (by decide) (by decide) Tok.nil⟩
+    · exact ⟨by decide, Tok.plain '2' _ (by decide) (by decide) (by decide) (by decide) Tok.nil⟩
+    · exact ⟨by simp, tokEx⟩)
+/-- `tok_of_bal`: `a{b{c}}d` (no delimiter anywhere) -/
+theorem nv_tok_of_bal : Tok ds ['a', '{', 'b', '{', 'c', '}', '}', 'd'] :=
+  tok_of_bal ds (t := ['a', '{', 'b', '{', 'c', '}', '}', 'd'])
+    (Bal.plain '}' 'a' _ (by decide) (by decide) (by decide)
+      (Bal.brace '}' ['b', '{', 'c', '}'] ['d']
+        (Bal.plain _ 'b' _ (by decide) (by decide) (by decide)
+          (Bal.brace _ ['c'] [] (Bal.plain _ 'c' _ (by decide) (by decide) (by decide) (Bal.nil _)) (Bal.nil _)))
+        (Bal.plain _ 'd' _ (by decide) (by decide) (by decide) (Bal.nil _)))) rfl (by decide)
+theorem nv_okValue_of_nested : okValue ds "a{b, {c}} \"p q\"".toList = true :=
+  okValue_of_nested ds (by decide) (by decide) _ (by decide) (by decide) (by decide) (by decide) balEx
+theorem nv_arg_format_roundtrip_nested :
+    unquote (argFormat ds "a{b, {c}} \"p q\"".toList) = "a{b, {c}} \"p q\"".toList
+      ∧ atomic ds (argFormat ds "a{b, {c}} \"p q\"".toList) = true :=
+  arg_format_roundtrip_nested ds (by decide) (by decide) _ (by decide) (by decide) (by decide) (by decide) balEx
+
+/-! ## 5. Props/C06Fixed.lean -/
+
+theorem nv_arg_format_fixed_unquote : unquote (argFormatC ⟨true, true, true⟩ ds [] "{a}".toList) = "{a}".toList :=
+  arg_format_fixed_unquote ⟨true, true, true⟩ rfl ds [] _
+theorem nv_arg_format_fixed_not_keyword :
+    (typeKeywords G ['V']).contains (lower (argFormatC ⟨true, true, true⟩ ds (typeKeywords G ['V']) "AC".toList)) = false :=
+  arg_format_fixed_not_keyword ⟨true, true, true⟩ rfl ds _ (by decide +kernel) _
+/-- `elision_fixed`: the hypothesis (an argument IS omitted) holds for `R1` with sole argument `R1` -/
+theorem nv_elision_fixed : defaultIsName G "R1".toList [] = true :=
+  elision_fixed ⟨true, true, true⟩ rfl G "R1".toList [] ["R1".toList] (by decide +kernel)
+theorem nv_fixes_change_nothing_else :
+    argFormatC ⟨true, true, true⟩ ds (typeKeywords G ['V']) "f(x, y) + 1".toList = argFormat ds "f(x, y) + 1".toList :=
+  fixes_change_nothing_else _ ds _ _ (by decide) (by decide) (by decide +kernel)
 
 /-! ## boundaries: what the hypothesis predicates EXCLUDE although Lcapy accepts it
     (each of these is accepted by the model's parser -- `parsed … = some _` -- and by the real parser) -/
@@ -170,5 +564,13 @@ theorem tie_theCfg : theCfg = ⟨false, false, false⟩ := by decide
     no longer runs, while every Props file still builds) -/
 theorem tie_driver_printer (c : Cpt) : printCptC theCfg G c = printCpt G c := by
   rw [tie_theCfg]; exact printCptC_current G c
+
+/-- the same for the netlist printer of `c06.rt` (`printNetlistC theCfg`) and the `printNetlist` of `netlist_roundtrip` -/
+theorem tie_driver_netlist_printer (s : NState) : printNetlistC theCfg G s = printNetlist G s := by
+  have : printCptC theCfg G = printCpt G := funext tie_driver_printer
+  simp [printNetlistC, printNetlist, this]
+
+/-- `netsubs_is_print` is the first branch of the definition of `netSubs` (it holds by `rfl`) -/
+theorem netsubs_is_print_is_rfl (cfg : PrinterCfg) (g : Grammar) (c : Cpt) : netSubs true cfg g c = printCptC cfg g c := rfl
 
 end Lcapy.NonVacuity.C06
